@@ -86,12 +86,12 @@ fn address_lane(asz: u8) {
 }
 #[kani::proof]
 #[kani::unwind(20)]
-fn c15_q_address_a4() {
+fn c15_t_address_a4() {
     address_lane(4)
 }
 #[kani::proof]
 #[kani::unwind(20)]
-fn c15_q_address_a8() {
+fn c15_t_address_a8() {
     address_lane(8)
 }
 #[kani::proof]
@@ -138,17 +138,17 @@ fn branch_lane(from: usize, to: usize) {
 }
 #[kani::proof]
 #[kani::unwind(20)]
-fn c15_q_branch_forward() {
+fn c15_t_branch_forward() {
     branch_lane(1, 3)
 }
 #[kani::proof]
 #[kani::unwind(20)]
-fn c15_q_branch_backward() {
+fn c15_t_branch_backward() {
     branch_lane(2, 0)
 }
 #[kani::proof]
 #[kani::unwind(20)]
-fn c15_q_branch_to_end() {
+fn c15_t_branch_to_end() {
     branch_lane(0, 4)
 }
 #[kani::proof]
